@@ -24,12 +24,21 @@ Fresh(s) == IF Class[s] = "local" THEN "ok_p" ELSE "ok_u"
 Only(s, f) == [t \in Stores |-> IF t = s THEN f ELSE [o \in Oids |-> Absent]]
 Holding(s, X) == Only(s, [o \in Oids |-> IF o \in X THEN Fresh(s) ELSE Absent])
 GcCases(_u) ==
-    { [init |-> Holding(s, X), s |-> s, used |-> u, foreign |-> fo, ord |-> ord, shallow |-> sh, dry |-> dry, ro |-> ro] :
+    { [init |-> Holding(s, X), s |-> s, used |-> u, foreign |-> fo, ord |-> ord, shallow |-> sh, dry |-> dry, ro |-> ro, cs |-> s, cro |-> FALSE] :
         s \in Stores, X \in SUBSET Oids, u \in SUBSET Oids, fo \in {{}, {"f1"}, {"d2", "f3"}},
         ord \in {"used-first", "foreign-first"}, sh \in BOOLEAN, dry \in BOOLEAN, ro \in {FALSE} }
     \cup
-    { [init |-> Holding(s, X), s |-> s, used |-> u, foreign |-> {}, ord |-> "used-first", shallow |-> sh, dry |-> FALSE, ro |-> TRUE] :
+    { [init |-> Holding(s, X), s |-> s, used |-> u, foreign |-> {}, ord |-> "used-first", shallow |-> sh, dry |-> FALSE, ro |-> TRUE, cs |-> s, cro |-> FALSE] :
         s \in Stores, X \in {Oids, {"f1", "d2"}}, u \in {{}, {"d1"}, {"f1", "f2"}}, sh \in BOOLEAN }
+
+\* a separate cache_odb handle: the other store holds the trees (all of them, or none), every mix of the two read-only flags
+Other(s) == CHOOSE t \in Stores : t # s
+GcViaCases(_u) ==
+    { [init |-> [t \in Stores |-> IF t = s THEN [o \in Oids |-> IF o \in X THEN Fresh(s) ELSE Absent]
+                                            ELSE [o \in Oids |-> IF o \in Y THEN Fresh(t) ELSE Absent]],
+       s |-> s, used |-> u, foreign |-> {}, ord |-> "used-first", shallow |-> sh, dry |-> dry, ro |-> ro, cs |-> Other(s), cro |-> cro] :
+        s \in Stores, X \in {Oids, {"f1", "f2", "f3", "d2"}, {"f1", "d1"}}, Y \in {Oids, {}}, u \in {{}, {"d1"}, {"d1", "d2"}, {"f1", "d2"}},
+        sh \in BOOLEAN, dry \in BOOLEAN, ro \in BOOLEAN, cro \in BOOLEAN }
 
 (***************************** C12 / C07 : status, check **************************)
 \* one store holding every mix of absent / intact / corrupt-unprotected objects
@@ -87,7 +96,7 @@ GenInit == Init
 GenNext == UNCHANGED vars
 What == IOEnv.GEN_WHAT
 Out == CASE What = "xfer"   -> [push |-> PushCases(0), fetch |-> FetchCases(0)]
-         [] What = "gc"     -> [gc |-> {c \in GcCases(0) : c.foreign = {} => c.ord = "used-first"}]
+         [] What = "gc"     -> [gc |-> {c \in GcCases(0) : c.foreign = {} => c.ord = "used-first"}, gcvia |-> GcViaCases(0)]
          [] What = "status" -> [status |-> StatusCases(0), check |-> CheckCases(0)]
          [] What = "c11"    -> [c11 |-> C11Cases(0), verify |-> VerifyCases(0)]
          [] What = "stale"  -> [stale |-> {c \in StaleCases(0) : c.E \subseteq c.r1}]
